@@ -44,9 +44,12 @@ type Unzip struct {
 // Call the function with the arguments provided.
 func (f *Unzip) Call(s *slip.Scope, args slip.List, depth int) (result slip.Object) {
 	slip.CheckArgCount(s, depth, f, args, 1, 12)
-	data := []byte(slip.CoerceToOctets(args[0]).(slip.Octets))
+	data := octetBytes(args[0])
 
-	r, _ := gzip.NewReader(bytes.NewReader(data)) // can't fail
+	r, err := gzip.NewReader(bytes.NewReader(data))
+	if err != nil { // not gzip data, too short for one
+		slip.ErrorPanic(s, depth, "unzip failed. %s", err)
+	}
 	// The gzip reader panic on error and does not return an error.
 	buf, _ := io.ReadAll(r)
 	var plist slip.List
